@@ -138,7 +138,7 @@ def run_case(case):
                            inside=float(li), cfg=cfg, policy=pol)
                 lib = float(li)
         if ref is None or not torch.isfinite(ref):
-            if lib < -20.0:
+            if lib < -12.0:
                 r.count("skipped_saturated_items")   # derivative below 1e-9: output saturated in float64
                 continue
             if any(float(v) in sp for v in x[i].reshape(-1)):
